@@ -487,9 +487,13 @@ def clause_g(c: Check):
         c.expect(got.get(name) == want[name][3], 'C15-g', '_FileTypeAccessForPath/' + name,
                  'type %s of a path is tested with %s' % (name, got.get(name)), acc.loc())
     st = ix.class_member(acc, 'stat')
-    r = single_return_expr(st)
-    ok = isinstance(r, ast.IfExp) and unparse(r.test) == st.positional_params()[1].arg \
-         and unparse(r.body).endswith('.stat()') and unparse(r.orelse).endswith('.lstat()')
+    ok = True
+    for flag, want_call in ((True, 'stat'), (False, 'lstat')):
+        got = set()
+        for p in util.func_paths(ix, fo, st, _NoInline(), args={st.positional_params()[1].arg: K(flag)}):
+            o = p.val.origin if p.kind == 'return' and isinstance(p.val, Sym) else None
+            got.add(o[4].func.attr if o and o[0] == 'call' and isinstance(o[4].func, ast.Attribute) else '?')
+        ok = ok and got == {want_call}
     c.expect(ok, 'C15-g', '_FileTypeAccessForPath.stat', 'stat(follow_sym_links) does not choose stat() / lstat() by its flag', st.loc())
     # accessor for a directory entry: decision table over the enum
     acc2 = ix.cls(FM + ':_FileTypeAccessForDirEntry')
@@ -555,10 +559,14 @@ def clause_h(c: Check):
     c.expect(ok, 'C15-h', 'Applier._result_true', '_result_true does not build a true result', rt.loc())
     # the count check precedes and a different number of files is a mismatch
     nf = ix.func(MF + ':_Applier._start_w_num_files_check')
+
+    def is_false_result(node) -> bool:
+        return isinstance(node, ast.Call) and node.args and isinstance(node.args[0], ast.Constant) and node.args[0].value is False \
+            and getattr(ix.callee(nf.module, nf, node), 'name', None) == 'MatchingResult'
+
     ifs = [n for n in walk_own(nf.node) if isinstance(n, ast.If)]
     ok = len(ifs) == 1 and isinstance(ifs[0].test, ast.Compare) and isinstance(ifs[0].test.ops[0], ast.NotEq) \
-         and isinstance(ifs[0].body[0], ast.Return) and isinstance(ifs[0].body[0].value, ast.Call) \
-         and isinstance(ifs[0].body[0].value.args[0], ast.Constant) and ifs[0].body[0].value.args[0].value is False
+         and is_false_result(util.block_return(nf, ifs[0].body))
     fetch = [n for n in ast.walk(nf.node) if isinstance(n, ast.Call) and isinstance(n.func, ast.Attribute)
              and n.func.attr == '_try_get_num_files']
     ok = ok and len(fetch) == 1 and isinstance(fetch[0].args[0], ast.BinOp) and isinstance(fetch[0].args[0].op, ast.Add) \
@@ -567,7 +575,5 @@ def clause_h(c: Check):
                                                       'a different number', nf.loc())
     nm = ix.func(MF + ':_Applier._continue_w_file_name_check')
     hs = [h for n in walk_own(nm.node) if isinstance(n, ast.Try) for h in n.handlers]
-    ok = len(hs) == 1 and unparse(hs[0].type) == 'KeyError' and isinstance(hs[0].body[0], ast.Return) \
-         and isinstance(hs[0].body[0].value, ast.Call) and isinstance(hs[0].body[0].value.args[0], ast.Constant) \
-         and hs[0].body[0].value.args[0].value is False
+    ok = len(hs) == 1 and unparse(hs[0].type) == 'KeyError' and is_false_result(util.block_return(nm, hs[0].body))
     c.expect(ok, 'C15-h', 'matches-full/name-check', 'a file whose name is not listed is not a mismatch', nm.loc())
